@@ -509,7 +509,7 @@ func init() {
 			c.describe("C11.c", "flow: cluster plans return through addOrderLimitOffset with HAVING in between (see C09.c, C08.b)")
 			ruleC09c(c, "C11.c")
 			ruleC08b(c, "C11.c")
-		}, func(c *Ctx) { ruleC11d(c, "C11.d") }, func(c *Ctx) { ruleC11e(c, "C11.e") }, func(c *Ctx) { ruleC09e(c, "C11.f") }, func(c *Ctx) { ruleC11g(c, "C11.g") }, func(c *Ctx) { ruleLoopCapture(c, "C11.h", "z", "z/planner") }},
+		}, func(c *Ctx) { ruleC11d(c, "C11.d") }, func(c *Ctx) { ruleC11e(c, "C11.e") }, func(c *Ctx) { ruleC09e(c, "C11.f") }, func(c *Ctx) { ruleC11g(c, "C11.g") }, func(c *Ctx) { ruleLoopCapture(c, "C11.h", "z", "z/planner") }, func(c *Ctx) { ruleC11i(c, "C11.i") }, func(c *Ctx) { ruleC08i(c, "C11.j") }},
 	})
 }
 
@@ -708,4 +708,28 @@ func ruleC11g(c *Ctx, rule string) {
 		c.check(rule, short(nm)+" is one-to-one in the parameters it reports", fn.Pos(), ok, why, "operator "+short(nm)+" reports its operands' parameters as one-to-one but is not in the reviewed table of injective operators: GROUP BY <this operator>(partition key) counts as grouping by the partition key, the query is pushed down whole and groups spanning partitions come back as several partial rows")
 	}
 	c.floor(rule, "WalkOneToOneParams implementations", n, 15)
+}
+
+// ruleC11i: the leader of a non-pushdown plan re-groups what the partitions
+// already windowed.
+func ruleC11i(c *Ctx, rule string) {
+	c.describe(rule, "dom: in planClusterNonPushdown the query's AsOf and Until are reset to the zero time (and Resolution to 0) before the leader-side group-by is added — the partitions already applied the window, rounded to the table resolution by asOfUntilFor; a leader that windows again with the raw, unrounded ASOF/UNTIL shifts its time grid against the local plan")
+	fn := c.need(rule, "z/planner.planClusterNonPushdown")
+	if fn == nil {
+		return
+	}
+	gb := callsTo(fn, "z/planner.addGroupBy")
+	if len(gb) != 1 {
+		c.undecided(rule, "planClusterNonPushdown: window reset before the leader group-by", fn.Pos(), "expected one addGroupBy call")
+		return
+	}
+	for _, fld := range []string{"AsOf", "Until"} {
+		ok := false
+		for _, st := range fieldStores(fn, "z/sql.Query."+fld) {
+			if isZeroTime(st.Val) && instrDominates(st, gb[0].(ssa.Instruction)) {
+				ok = true
+			}
+		}
+		c.check(rule, "planClusterNonPushdown: query."+fld+" is reset before the leader group-by", gb[0].Pos(), ok, "query."+fld+" = time.Time{} dominates addGroupBy", "the leader-side group-by of a non-pushdown plan keeps the query's raw "+fld+": with an absolute timestamp off the resolution grid the leader's periods are shifted against the partitions' (and the local plan's) rounded window")
+	}
 }
